@@ -771,7 +771,7 @@ func (g *G) stmt(s *sc, d int) *N {
 				var wrapped *N = bc
 				switch g.r(4) { // break/continue below let / newScope inside cond
 				case 0:
-					wrapped = &N{K: "let", Ps: []string{g.pool()}, A: []*N{g.lit(), bc}}
+					wrapped = &N{K: []string{"let", "letseq"}[g.r(2)], Ps: []string{g.pool()}, A: []*N{g.lit(), bc}}
 				case 1:
 					wrapped = &N{K: "newscope", A: []*N{bc}}
 				}
